@@ -296,6 +296,150 @@ theorem keyedTotal_every_prefix_vector_reachable {m m' : KMap κ α} {rel : List
   obtain ⟨tape, d', ht⟩ := aux_keyedTotal_complete h force log hf
   exact ⟨tape, d', by simp [keyedTotalAuto, ht]⟩
 
+
+/-! ### KeyedStreamHook<NoOrder>: every combination of per-key sub-multisets -/
+
+theorem aux_keyedNoInner_complete : ∀ (fuel : Nat) (pre post out : List α) (log : List Call) (force : Bool)
+    (remaining : Nat) (sel rem : List α), fuel = (pre ++ post).length → (post = [] → pre = []) → Split post sel rem →
+    ((force && remaining == 0) = true → sel ≠ []) →
+    ∃ tape log', ∀ rest, keyedNoInner fuel force remaining (pre ++ post) out pre.length ⟨tape ++ rest, log⟩
+      = some (out ++ sel, pre ++ rem, (if sel.isEmpty then force else false), ⟨rest, log'⟩) := by
+  intro fuel
+  induction fuel with
+  | zero =>
+    intro pre post out log force remaining sel rem hf hp hs _
+    have hq : pre ++ post = [] := List.length_eq_zero_iff.mp hf.symm
+    simp only [List.append_eq_nil_iff] at hq
+    obtain ⟨rfl, rfl⟩ := hq
+    obtain ⟨rfl, rfl⟩ := aux_split_of_nil hs
+    exact ⟨[], log, fun rest => by simp [keyedNoInner]⟩
+  | succ n ih =>
+    intro pre post out log force remaining sel rem hf hp hs hforce
+    by_cases hpost : post = []
+    · subst hpost
+      have := hp rfl; subst this
+      obtain ⟨rfl, rfl⟩ := aux_split_of_nil hs
+      exact ⟨[], log, fun rest => by simp [keyedNoInner]⟩
+    · have hne : (pre ++ post).isEmpty = false := by
+        cases post with
+        | nil => exact absurd rfl hpost
+        | cons _ _ => simp
+      cases sel with
+      | nil =>
+        have hrem := aux_split_nil_left hs
+        subst hrem
+        have hmust : (force && remaining == 0) = false := by
+          cases hm : (force && remaining == 0) with
+          | false => rfl
+          | true => exact absurd rfl (hforce hm)
+        refine ⟨[1], .b true :: log, fun rest => ?_⟩
+        unfold keyedNoInner
+        simp only [hne, Bool.false_eq_true, ↓reduceIte, hmust, Bool.not_false]
+        have := aux_boolIf_hit true log rest
+        simp only [↓reduceIte] at this
+        simp only [List.cons_append, List.nil_append, this, ↓reduceIte, List.append_nil, List.isEmpty_nil]
+      | cons x s' =>
+        obtain ⟨a, b, r', hl, hr, hsb⟩ := aux_split_first hs
+        subst hr
+        have hidx : (pre ++ post)[(pre ++ a).length]? = some x := by
+          rw [hl, ← List.append_assoc]; simp
+        have hlen : (pre ++ a).length < (pre ++ post).length := by
+          rw [hl]; simp
+        have herase : (pre ++ post).eraseIdx (pre ++ a).length = (pre ++ a) ++ b := by
+          rw [hl, ← List.append_assoc, List.eraseIdx_append_of_length_le (Nat.le_refl _)]; simp
+        have hrec : ∀ log', ∃ tape log'', ∀ rest, (if ((pre ++ a).length == ((pre ++ a) ++ b).length) = true
+              then some (out ++ [x], (pre ++ a) ++ b, false, (⟨tape ++ rest, log'⟩ : Drv))
+              else keyedNoInner n false remaining ((pre ++ a) ++ b) (out ++ [x]) (pre ++ a).length ⟨tape ++ rest, log'⟩)
+            = some (out ++ x :: s', pre ++ (a ++ r'), false, ⟨rest, log''⟩) := by
+          intro log'
+          cases hb : b with
+          | nil =>
+            subst hb
+            obtain ⟨rfl, rfl⟩ := aux_split_of_nil hsb
+            exact ⟨[], log', fun rest => by simp⟩
+          | cons b0 bs =>
+            have hneq : ((pre ++ a).length == ((pre ++ a) ++ b).length) = false := by
+              simp [hb]
+            have hfuel : n = ((pre ++ a) ++ b).length := by
+              have := hf; rw [hl] at this; simp at this ⊢; omega
+            obtain ⟨tape, log'', ht⟩ := ih (pre ++ a) b (out ++ [x]) log' false remaining s' r' hfuel
+              (by intro hbn; simp [hb] at hbn) hsb (by simp)
+            refine ⟨tape, log'', fun rest => ?_⟩
+            rw [← hb, hneq]
+            simp only [Bool.false_eq_true, ↓reduceIte]
+            simpa [List.append_assoc] using ht rest
+        cases hm : (force && remaining == 0) with
+        | true =>
+          obtain ⟨tape, log'', ht⟩ := hrec (.u pre.length ((pre ++ post).length - 1) (pre ++ a).length :: log)
+          refine ⟨((pre ++ a).length - pre.length) :: tape, log'', fun rest => ?_⟩
+          unfold keyedNoInner
+          simp only [hne, Bool.false_eq_true, ↓reduceIte, hm, Bool.not_true, aux_boolIf_false, List.cons_append]
+          rw [aux_natEx_hit pre.length (pre ++ post).length (pre ++ a).length log (tape ++ rest) (by simp) hlen]
+          simp only [hidx, herase, List.isEmpty_cons]
+          exact ht rest
+        | false =>
+          obtain ⟨tape, log'', ht⟩ := hrec (.u pre.length ((pre ++ post).length - 1) (pre ++ a).length :: .b false :: log)
+          refine ⟨0 :: ((pre ++ a).length - pre.length) :: tape, log'', fun rest => ?_⟩
+          unfold keyedNoInner
+          simp only [hne, Bool.false_eq_true, ↓reduceIte, hm, Bool.not_false, List.cons_append]
+          have hb0 := aux_boolIf_hit false log (((pre ++ a).length - pre.length) :: (tape ++ rest))
+          simp only [Bool.false_eq_true, ↓reduceIte] at hb0
+          simp only [hb0, Bool.false_eq_true, ↓reduceIte]
+          rw [aux_natEx_hit pre.length (pre ++ post).length (pre ++ a).length _ (tape ++ rest) (by simp) hlen]
+          simp only [hidx, herase, List.isEmpty_cons]
+          exact ht rest
+
+theorem aux_keyedNo_complete {m m' : KMap κ α} {rel : List (κ × α)} (h : KeyedRel Split m rel m') :
+    ∀ (force : Bool) (log : List Call), (force = true → rel ≠ []) →
+    ∃ tape d', keyedNoLoop m (nonemptyKeyCount m) force ⟨tape, log⟩ = some (rel, m', d') := by
+  induction h with
+  | nil => intro force log _; exact ⟨[], ⟨[], log⟩, by simp [keyedNoLoop]⟩
+  | @cons k q r q' m0 rel0 m0' hp hrest ih =>
+    intro force log hf
+    by_cases hq : q.isEmpty = true
+    · have hqe : q = [] := by simpa using hq
+      subst hqe
+      obtain ⟨rfl, rfl⟩ := aux_split_of_nil hp
+      obtain ⟨tape, d', ht⟩ := ih force log (by simpa using hf)
+      refine ⟨tape, d', ?_⟩
+      unfold keyedNoLoop
+      simp only [List.isEmpty_nil, ↓reduceIte, aux_nonemptyKeyCount_cons_empty (k := k) (rest := m0) hq, ht,
+        List.map_nil, List.nil_append]
+    · have hcnt := aux_nonemptyKeyCount_cons_nonempty (k := k) (rest := m0) hq
+      have hqne : q ≠ [] := by intro hh; subst hh; simp at hq
+      have hmust : (force && nonemptyKeyCount m0 == 0) = true → r ≠ [] := by
+        intro hc
+        simp only [Bool.and_eq_true, beq_iff_eq] at hc
+        have hrel0 := aux_keyedRel_empty (P := Split) (fun r q' h => (aux_split_of_nil h).1) hrest hc.2
+        have := hf hc.1
+        rw [hrel0] at this
+        intro hr; subst hr; simp at this
+      obtain ⟨tape1, log1, ht1⟩ := aux_keyedNoInner_complete q.length [] q [] log force (nonemptyKeyCount m0) r q'
+        (by simp) (by intro h; exact absurd h hqne) hp hmust
+      simp only [List.nil_append, List.length_nil] at ht1
+      obtain ⟨tape2, d', ht2⟩ := ih (if r.isEmpty then force else false) log1 (by
+        intro hff
+        cases r with
+        | nil => simpa using hf (by simpa using hff)
+        | cons _ _ => simp at hff)
+      refine ⟨tape1 ++ tape2, d', ?_⟩
+      unfold keyedNoLoop
+      simp only [hq, Bool.false_eq_true, ↓reduceIte, hcnt, Nat.add_sub_cancel, ht1 tape2, ht2]
+
+/-- every combination of per-key in-order sub-multisets (not all empty when forced) is released by
+some tape -/
+theorem keyedNo_every_split_vector_reachable {m m' : KMap κ α} {rel : List (κ × α)} (force : Bool)
+    (log : List Call) (h : KeyedRel Split m rel m') (hf : force = true → rel ≠ []) :
+    ∃ tape d', keyedNoAuto m ⟨tape, log⟩ force = some (rel, m', !rel.isEmpty, d') := by
+  obtain ⟨tape, d', ht⟩ := aux_keyedNo_complete h force log hf
+  exact ⟨tape, d', by simp [keyedNoAuto, ht]⟩
+
+
+example : ∃ tape d', keyedNoAuto [(7, [1, 2]), (9, [3])] ⟨tape, []⟩ false
+    = some ([(7, 2), (9, 3)], [(7, [1]), (9, [])], true, d') :=
+  keyedNo_every_split_vector_reachable (m := [(7, [1, 2]), (9, [3])]) false []
+    (.cons (r := [2]) (q' := [1]) (.right (.left .nil)) (.cons (r := [3]) (q' := []) (.left .nil) .nil)) (by simp)
+
 /-! ### SingletonHook: every buffered version, and the unchanged snapshot -/
 
 /-- every buffered snapshot version is released by some tape (skipping the older ones) -/
